@@ -12,6 +12,32 @@ def tokenize(s):
     return re.findall(r"\(|\)|[^\s()]+", s)
 
 
+def tokenize_quoted(line):
+    """split a protocol output line into tokens, honouring double-quoted strings"""
+    out, i, n = [], 0, len(line)
+    while i < n:
+        c = line[i]
+        if c.isspace():
+            i += 1
+        elif c == '"':
+            j = i + 1
+            buf = []
+            while j < n and line[j] != '"':
+                if line[j] == "\\" and j + 1 < n:
+                    j += 1
+                buf.append(line[j])
+                j += 1
+            out.append("".join(buf))
+            i = j + 1
+        else:
+            j = i
+            while j < n and not line[j].isspace():
+                j += 1
+            out.append(line[i:j])
+            i = j
+    return out
+
+
 def parse_sexp(s):
     toks = tokenize(s)
     pos = 0
